@@ -1067,7 +1067,7 @@ func ColumnDefault(c *schema.Column) (cty.Value, error) {
 		case strings.ToLower(x.V) == "true", strings.ToLower(x.V) == "false":
 			return cty.BoolVal(strings.ToLower(x.V) == "true"), nil
 		case sqlx.IsLiteralNumber(x.V) && !textlike:
-			if strings.Contains(x.V, ".") {
+			if strings.ContainsAny(x.V, ".eE") {
 				f, err := strconv.ParseFloat(x.V, 64)
 				if err != nil {
 					return cty.NilVal, err
